@@ -145,6 +145,24 @@ static Res opGenB(Ctx &c)
 }
 
 struct Scenario { const char *name; OpFn a, b; bool reinit; };
+// A closes the two sessions there are (the second close is that of the token's LAST session: the token logs out);
+// B opens a session of its own, logs in (or is told the user already is), and creates a private session object
+static Res opCloseLastA(Ctx &c) { Res r; F->C_CloseSession(c.sb); r.rv = F->C_CloseSession(c.sa); r.out = "."; return r; }
+static Res opOpenLoginCreateB(Ctx &c)
+{
+	Res r; r.out = ".";
+	CK_SESSION_HANDLE s = openS(false);
+	if (!s) { r.rv = CKR_GENERAL_ERROR; return r; }
+	CK_RV lv = F->C_Login(s, CKU_USER, (CK_UTF8CHAR_PTR)"user1234", 8);
+	if (lv != CKR_OK && lv != CKR_USER_ALREADY_LOGGED_IN) { r.rv = lv; return r; }
+	CK_OBJECT_HANDLE h = mkObj(s, "newB", false, true, "bbbb");
+	// the session state B sees after its own login: 3 = CKS_RW_USER_FUNCTIONS
+	CK_SESSION_INFO si; memset(&si, 0, sizeof si); F->C_GetSessionInfo(s, &si);
+	r.rv = h ? CKR_OK : CKR_USER_NOT_LOGGED_IN;
+	char b[32]; snprintf(b, sizeof b, "state%lu", (unsigned long)si.state); r.out = b;
+	return r;
+}
+
 static Scenario SC[] = {
 	{"find_find_unregistered", opFindA, opFindB, true},      // token objects without a handle in this process yet
 	{"find_find", opFindA, opFindB, false},
@@ -160,6 +178,7 @@ static Scenario SC[] = {
 	{"generate_generate", opGenA, opGenB, false},
 	{"find_create", opFindA, opCreateB, false},
 	{"getattr_destroy", opGetP1, opCloseB, false},
+	{"closelast_openlogin", opCloseLastA, opOpenLoginCreateB, false},
 };
 
 // ---- stress mode: thrdrv <lib> stress <threads> <iterations>
